@@ -32,6 +32,7 @@ import DSymVerif.Proofs.FundGroupTree
 import DSymVerif.Proofs.FundGroupLetters
 import DSymVerif.Proofs.FundGroupSpecMain
 import DSymVerif.Proofs.FundGroupSpecGlue
+import DSymVerif.Proofs.FundGroupInnerFaces
 import DSymVerif.Spec.C09
 
 namespace DSymVerif.C09
@@ -415,5 +416,82 @@ theorem driver_graph_is_model_graph (r : Proto.RawSym) (h : DrvC09View.inDomain 
 
 example : ∃ r : Proto.RawSym, DrvC09View.inDomain r = true :=
   ⟨{ size := 1, dim := 2, op := #[1, 1, 1], v := #[0, 0] }, by decide⟩
+
+/-- **… and the Spec builds literally the same textbook presentation from it.**  The Spec's
+    `textbook` reads a graph only at in-range arguments (`textbook_congr`, proved function by
+    function: breadth-first tree, orbit walks, orbit representatives, orbit words, branching
+    numbers), so on every in-domain input the presentation the driver computes from the raw tables
+    is the presentation `textbook (gOf ds)` of the theorems; and when the model returns `f`, the two
+    presentations whose invariants the driver compares — exactly the expressions `pImpl`, `pText`
+    of Driver/C09.lean, with the model's `f` in place of the implementation's output — present
+    isomorphic groups. -/
+theorem driver_compares_isomorphic_groups (r : Proto.RawSym) (h : DrvC09View.inDomain r = true) :
+    ∃ ds, r.toSym = .ok ds ∧
+      SpecC09.textbook (DrvC09View.specG r) = SpecC09.textbook (gOf ds) ∧
+      ∀ f, fundamentalGroup ds = .ok f → Nonempty (
+        PresentedGroup (MRel (SpecC09.simplify ⟨f.nrGenerators, f.relators⟩).ngens
+          (SpecC09.simplify ⟨f.nrGenerators, f.relators⟩).rels) ≃*
+        PresentedGroup (MRel (SpecC09.simplify (SpecC09.textbook (DrvC09View.specG r))).ngens
+          (SpecC09.simplify (SpecC09.textbook (DrvC09View.specG r))).rels)) := by
+  obtain ⟨ds, hdec, hs, hsz, hdim, hcon, htb⟩ := specG_textbook r h
+  refine ⟨ds, hdec, htb, fun f hf => ?_⟩
+  rw [htb]
+  exact spec_compares_isomorphic_groups ds hs hdim hsz hcon f hf
+
+example : ∃ r : Proto.RawSym, DrvC09View.inDomain r = true :=
+  ⟨{ size := 1, dim := 2, op := #[1, 1, 1], v := #[0, 0] }, by decide⟩
+
+/-! ## 13. the inner 3-facets reported by `inner_edges` come in whole faces (for C16) -/
+
+/-- **`inner_edges` and faces.**  Let `ds` be a valid symbol of dimension ≥ 3 (far operations
+    commute) all of whose `v_01` are 1, and let `inner_edges(ds)` return `inner` — the facets glued by
+    `glue_recursively(spanning_tree)`, tree facets included.  Then every reported pair is a facet of
+    the symbol, and the chambers on the reported 3-facets (`OnInnerWall`: `d` and `s_3 d` for each
+    reported `(d,3)`) form a set closed under `s_0` and `s_1`: inner walls consist of whole faces.
+
+    Proof (Proofs/FundGroupInner*.lean): only non-mirror facets are glued in this batch; the queue
+    discipline of `glue_recursively` is complete for them (`glueRecLoop_sat`: when the last-but-one
+    facet pair of a 2-orbit with `v = 1` is glued, `glue` pushes a ridge of the last pair, and that
+    entry passes the test `good` when it is popped); the strict index priority of `Traversal`
+    (`traversal_prio`) makes the tree span every (0,1)-orbit by 0- and 1-facets, so every non-mirror
+    0- and 1-facet ends up glued (`low_facets_glued`); then a glued `(x,3)` and the two glued
+    `a`-facets of its `(a,3)`-orbit (a 4-cycle, since `s_a s_3 = s_3 s_a`) force `(s_a x,3)`. -/
+theorem inner_edges_come_in_faces (ds : DSymData) (hs : ValidSym ds) (hdim : 3 ≤ ds.dim)
+    (hv01 : ∀ x, 1 ≤ x → x ≤ ds.size → orbV ds 0 1 x = 1) (inner : List Edge)
+    (h : innerEdges ds = .ok inner) :
+    (∀ e ∈ inner, 1 ≤ e.1 ∧ e.1 ≤ ds.size ∧ e.2 ≤ ds.dim) ∧
+    ∀ x, OnInnerWall ds inner x → ∀ a, a ≤ 1 → OnInnerWall ds inner (ds.dset.opU a x) :=
+  innerEdges_walls hs hdim hv01 h
+
+/-- the hypotheses hold for `as_dsym` of every 3-dimensional D-set with commuting far operations -/
+example : Simp.Axioms3 Simp.exTiles ∧ ∀ sym, Simp.asDSym Simp.exTiles = .ok sym →
+    ValidSym sym ∧ 3 ≤ sym.dim ∧ ∀ x, 1 ≤ x → x ≤ sym.size → orbV sym 0 1 x = 1 := by
+  have hax : Simp.Axioms3 Simp.exTiles :=
+    Simp.axioms3_of_bool (by decide +kernel) rfl (by decide +kernel)
+  refine ⟨hax, fun sym h => ?_⟩
+  obtain ⟨hs, eS, eD, _, ev⟩ := asDSym_spec hax.1 hax.2.2 h
+  exact ⟨hs, by rw [eD, hax.2.1], fun x h1 h2 =>
+    ev 0 x (by rw [hax.2.1]; omega) h1 (by rw [← eS]; exact h2)⟩
+
+/-- **`InnerWallsAreFaces`** — the statement C16 (Proofs/SimplifySteps.lean) assumes about
+    `inner_edges`, in C16's own words: for every complete 3-dimensional D-set `ds` with commuting
+    far operations (`Axioms3`), whenever `as_dsym(ds)` returns `sym` and `inner_edges(sym)` returns
+    `inner`, the chambers of `inner` are chambers of `ds` and the junk list of `merge_tiles`
+    (`tilesJunk ds inner`, the 3-orbits of the reported `(d,3)`) is closed under `s_0` and `s_1`. -/
+theorem inner_walls_are_faces : Simp.InnerWallsAreFaces :=
+  innerWallsAreFaces
+
+example : ∃ ds, Simp.Axioms3 ds ∧ ∃ sym inner, Simp.asDSym ds = .ok sym ∧
+    innerEdges sym = .ok inner := by
+  have hax : Simp.Axioms3 Simp.exTiles :=
+    Simp.axioms3_of_bool (by decide +kernel) rfl (by decide +kernel)
+  refine ⟨Simp.exTiles, hax, ?_⟩
+  cases hsym : Simp.asDSym Simp.exTiles with
+  | ok sym =>
+    obtain ⟨hs, _⟩ := asDSym_spec hax.1 hax.2.2 hsym
+    obtain ⟨es, hes⟩ := innerEdges_ok hs
+    exact ⟨sym, es, rfl, hes⟩
+  | err => exact absurd hsym (by decide +kernel)
+  | panic => exact absurd hsym (by decide +kernel)
 
 end DSymVerif.C09
